@@ -148,6 +148,14 @@ E('C17', 'Predicate formulas from a grammar (63 contexts x 12/62 atoms, two- and
          'rename cases: the new parsed tree equals the old tree with exactly the context\'s references '
          'renamed, stored parsed form consistent, other text and unparsable formulas untouched.')
 
+E('C14', 'Every table of <= 3/4 rows over sort values {1,2,None,\'a\',1.5} x groups {x,y}, in two states '
+         '(after adding, after reversing manualSort): find.lt/le/gt/ge/eq for 11 value probes (+ tuple and '
+         'prefix probes) and PREVIOUS/NEXT/RANK for 6 order specs on every row vs a linear scan of the '
+         'documented order.')
+E('C19', '486 grammar texts in 16 kinds + every string of length <= 3/4 over 10 characters as the formula '
+         'of one column (alone, and 16 per document): the bundle succeeds, other columns keep their '
+         'values, valid texts equal an independent tokenize/AST reference, invalid ones error in every row.')
+
 PLANNED = {}
 
 
